@@ -8,6 +8,11 @@
   the `stage`-fold cascade of one section.
   `lsp2lpc` returns exactly the coefficient list of A(z) = ½(P(z)+Q(z)) built by polynomial multiplication of
   the second-order sections (even and odd orders) — `Jb/Proofs/LspPoly.lean`.
+  For **every α** (`Jb/Proofs/MglsaWarp.lean`, `LspWarp.lean`): the filter is `stage` identical sections in cascade; one
+  section computes `x = y + Σ_{k≥1} c_k Φ_k(y)` (Φ_k the warped basis), which for the coefficients the vocoder derives from
+  an LSP frame is `(1+γb₀)·x = (1+γ·mgc₀)·A(z̃) y` with `A = ½(P+Q)` evaluated in the warped delay `z̃⁻¹` — the section is
+  `κ / A(z̃)`, the cascade `κ^stage / A(z̃)^stage`, and the gain relation ties `c[0]·κ^stage` to `K`.  So the transfer
+  function of the property, `K / A(z̃)^stage`, is an identity of the code's arithmetic for every α, order and stage.
   Not proved: the analytic clause |ln|H| − ln(K/|A|^s)| ≤ 0.001 neper, decided on
   every run against A(z) built by polynomial multiplication in the driver.
 -/
@@ -16,6 +21,7 @@ import Jb.Proofs.Lti
 import Jb.Proofs.Cepstrum
 import Jb.Proofs.LspStab
 import Jb.Proofs.LspPoly
+import Jb.Proofs.LspWarp
 
 set_option linter.unusedSectionVars false
 
@@ -107,5 +113,57 @@ theorem coefficients_are_gain_and_lpc (b useLogGain : Bool) (stage : Nat) (hs : 
 theorem cascade_is_all_pole (c : List K) (hc : 2 ≤ c.length) (stage : Nat) (xs : List K) :
     mglsaRun 0 c (mglsaInit stage c.length) xs = (allPoleRun c.tail)^[stage] xs :=
   mglsa_cascade_allpole c hc stage xs
+
+/-! ### every `α`: the cascade is `K / A(z̃)^stage` as an identity of the code's arithmetic -/
+
+/-- the filter is the `stage`-fold iteration of one section (from rest) -/
+theorem filter_is_stage_sections (alpha : K) (c : List K) (stage : Nat) (xs : List K) :
+    mglsaRun alpha c (mglsaInit stage c.length) xs = (dffRun alpha c (List.replicate c.length 0))^[stage] xs :=
+  mglsaRun_sections alpha c stage xs
+
+/-- **one section inverts `1 + Σ_{k≥1} c_k Φ_k`**: input `x` and output `y` satisfy `x = y + Σ c_k Φ_k(y)`, with `Φ_k`
+    the basis of the warped delay line — for every `α` and every order. -/
+theorem section_inverts_warped_polynomial (alpha : K) (c : List K) (hc : 2 ≤ c.length) (xs : List K) (n : Nat)
+    (hn : n < xs.length) :
+    xs.getD n 0 = (dffRun alpha c (List.replicate c.length 0) xs).getD n 0 +
+      (Finset.Ico 1 c.length).sum fun k =>
+        c.getD k 0 * (warpBasis alpha (dffRun alpha c (List.replicate c.length 0) xs) k).getD n 0 :=
+  dffRun_warp alpha c hc xs n hn
+
+/-- **one section of the LSP vocoder is `κ / A(z̃)`**, `A = ½(P+Q)` read in the warped delay `z̃⁻¹`, for every `α`:
+    `(1+γb₀)·x[t] = (1+γ·mgc₀)·Σ_m a_m (z̃^{-m} y)[t]` (hypotheses: the two `powf` laws used for the positive gain, and
+    the non-zero normalisation factor the code divides by). -/
+theorem section_is_warped_all_pole (b useLogGain : Bool) (stage : Nat) (hs : stage ≠ 0) (alpha g : K) (lsp : List K)
+    (hl : 1 ≤ lsp.length) (hmin : 0 < (Consts.minGain : K))
+    (hpow : Transc.pow (Transc.pow (lspGain useLogGain g) (-1 / (stage : K))) (1 / (-1 / (stage : K))) = lspGain useLogGain g)
+    (hne : Transc.pow (lspGain useLogGain g) (-1 / (stage : K)) ≠ 0)
+    (hb0 : 1 + (-1 / (stage : K)) *
+        (mc2b alpha (lsp2mgc ⟨b, true⟩ useLogGain stage (-1 / (stage : K)) (g :: lsp))).getD 0 0 ≠ 0)
+    (xs : List K) (t : Nat) (ht : t < xs.length) :
+    let gamma : K := -1 / (stage : K)
+    let mgc := lsp2mgc ⟨b, true⟩ useLogGain stage gamma (g :: lsp)
+    let c := lspCoefficients ⟨b, true⟩ useLogGain stage gamma alpha (g :: lsp)
+    let ys := dffRun alpha c (List.replicate c.length 0) xs
+    (1 + gamma * (mc2b alpha mgc).getD 0 0) * xs.getD t 0 =
+      (1 + gamma * mgc.getD 0 0) * warpPoly alpha (lspRefPoly lsp) ys t :=
+  section_lpc b useLogGain stage hs alpha g lsp hl hmin hpow hne hb0 xs t ht
+
+/-- **the gains multiply up to `K`**: the excitation gain `c[0]` times `κ^stage` is `(1+γ·mgc₀)^{1/γ}`, which the
+    `α = 0` collapse (`coefficients_are_gain_and_lpc`) identifies with the floored gain `K`. -/
+theorem gains_multiply_to_K (fx : Fix) (useLogGain : Bool) (stage : Nat) (gamma alpha : K) (hg : gamma ≠ 0) (v : List K)
+    (hv : 1 ≤ v.length)
+    (hb0 : 1 + gamma * (mc2b alpha (lsp2mgc fx useLogGain stage gamma v)).getD 0 0 ≠ 0)
+    (hm0 : 1 + gamma * (lsp2mgc fx useLogGain stage gamma v).getD 0 0 ≠ 0)
+    (hp1 : Transc.pow (1 + gamma * (mc2b alpha (lsp2mgc fx useLogGain stage gamma v)).getD 0 0) (1 / gamma) *
+        (1 + gamma * (mc2b alpha (lsp2mgc fx useLogGain stage gamma v)).getD 0 0) ^ stage = 1)
+    (hp2 : Transc.pow (1 + gamma * (lsp2mgc fx useLogGain stage gamma v).getD 0 0) (1 / gamma) *
+        (1 + gamma * (lsp2mgc fx useLogGain stage gamma v).getD 0 0) ^ stage = 1) :
+    (lspCoefficients fx useLogGain stage gamma alpha v).getD 0 0 =
+        Transc.pow (1 + gamma * (mc2b alpha (lsp2mgc fx useLogGain stage gamma v)).getD 0 0) (1 / gamma) ∧
+    (lspCoefficients fx useLogGain stage gamma alpha v).getD 0 0 *
+        ((1 + gamma * (mc2b alpha (lsp2mgc fx useLogGain stage gamma v)).getD 0 0) /
+          (1 + gamma * (lsp2mgc fx useLogGain stage gamma v).getD 0 0)) ^ stage =
+      Transc.pow (1 + gamma * (lsp2mgc fx useLogGain stage gamma v).getD 0 0) (1 / gamma) :=
+  gain_relation fx useLogGain stage gamma alpha hg v hv hb0 hm0 hp1 hp2
 
 end Jb.C13
